@@ -169,6 +169,7 @@ func runVdrProperty(c *Ctx, prop string) {
 	if prop == "C04" {
 		vdrFsChecks(c)
 	}
+	vdrWalkChecks(c, prop)
 	phase("pure+fs")
 	modes := []string{"rolling", "strict", "post"}
 	var specs []*VdrSpec
@@ -194,6 +195,25 @@ func runVdrProperty(c *Ctx, prop string) {
 				sp := mk("corpus:"+k, corpus[k], m, s)
 				sp.LateConsumers = s != 2
 				sp.NoExtra = s == 3
+				specs = append(specs, sp)
+			}
+		}
+	}
+	for ki, k := range cnames {
+		// ... and one run per corpus program in which a consumer of files fails and mrp is restarted
+		// (in post mode, where everything is reclaimed by the final sweep of the restarted mrp, and in one other mode)
+		for vi, m := range []string{"post", []string{"rolling", "strict"}[(ki+int(c.Seed))%2]} {
+			sp := mk("corpus:"+k, corpus[k], m, 4+int64(vi))
+			sp.FailConsumer = []string{"errors", "assert", "exit"}[(ki+vi+int(c.Seed))%3]
+			sp.FailAt = (ki + vi + int(c.Seed)) % 2
+			sp.LateConsumers = false
+			specs = append(specs, sp)
+		}
+		if c.Thorough {
+			for mi, m := range modes {
+				sp := mk("corpus:"+k, corpus[k], m, 7+int64(mi))
+				sp.CrashAt = []int{6 + c.Rng.Intn(20)}
+				sp.CrashSurvive = 0.3
 				specs = append(specs, sp)
 			}
 		}
